@@ -1,5 +1,9 @@
 """C02 — the definition actually read is reported (superset direction of the per-construct obligations)"""
 import contracts.nast_flow  # noqa
+import contracts.tables  # noqa
+import contracts.names  # noqa
+import contracts.memo  # noqa
 
-INFO = {'not_decided': [], 'stated_lemmas': ['composition lemma (DESIGN 2.2): per-construct contracts + table lemmas => names_at(read) is the set of '
-                                             'reaching definitions; spec vs CPython is trusted'], 'trusted': []}
+INFO = {'not_decided': ['AugAssign is outside the stated grammar (x += a is not counted as a read of x)'],
+        'stated_lemmas': ['composition lemma (DESIGN 2.2): per-construct contracts + table lemmas => names_at(read) is the set of '
+                          'reaching definitions; spec vs CPython is trusted'], 'trusted': []}
